@@ -1454,3 +1454,31 @@ Proof.
     symmetry. apply forallb_forall. apply Forall_forall. exact Hes.
   - rewrite Hed. eapply sorted_sort_id. exact Hs.
 Qed.
+(* WF is also necessary for the round trip *)
+Lemma forallb_sort (p : Edict -> bool) l : forallb p (sort_edicts l) = forallb p l.
+Proof.
+  destruct (forallb p l) eqn:E.
+  - apply forallb_forall. intros x Hx. rewrite forallb_forall in E. apply E.
+    eapply Permutation_in; [apply Permutation_sym; apply sort_perm|exact Hx].
+  - destruct (forallb p (sort_edicts l)) eqn:E2; [|reflexivity].
+    rewrite <- E. symmetry. apply forallb_forall. intros x Hx. rewrite forallb_forall in E2. apply E2.
+    eapply Permutation_in; [apply sort_perm|exact Hx].
+Qed.
+
+Lemma wf_sorted n r : wf_runestone n (sorted_runestone r) = wf_runestone n r.
+Proof. unfold wf_runestone, sorted_runestone. cbn [edicts etching mint pointer]. rewrite forallb_sort. reflexivity. Qed.
+
+Theorem roundtrip_iff r pre post s :
+  len pre + 1 + len post <= U32_MAX ->
+  Forall (fun s => ~ starts_magic s) pre ->
+  encipher r = Ok s ->
+  (decipher (pre ++ s :: post) = Ok (Some (ARunestone (sorted_runestone r))) <->
+   wf_runestone (len pre + 1 + len post) r = true).
+Proof.
+  intros Hn Hpre He. split.
+  - intros Hd. assert (Hl : len (pre ++ s :: post) = len pre + 1 + len post) by (rewrite len_app, len_cons; lia).
+    destruct (decipher_wf _ _ ltac:(rewrite Hl; exact Hn) Hd) as [Hwf _].
+    rewrite Hl, wf_sorted in Hwf. exact Hwf.
+  - intros Hwf. destruct (decipher_encipher r pre post Hwf Hpre) as (s' & He' & Hd).
+    rewrite He in He'. inversion He'; subst. exact Hd.
+Qed.
